@@ -107,7 +107,7 @@ func (pl *paceLoop) run(tr *Tracer, r *rand.Rand, n int, stallMode int) (consult
 	} else if pl.schedule != nil {
 		unit = 1e6
 	}
-	if unit > 1e15 {
+	if unit > 1e15 || unit <= 0 {
 		unit = 1e15
 	}
 	stall := func() (d int64) {
@@ -180,6 +180,9 @@ func (pl *paceLoop) run(tr *Tracer, r *rand.Rand, n int, stallMode int) (consult
 		if d := stall(); d > 0 && due < math.MaxInt64/2 {
 			tr.Emit("Stall", KV{"d": Big(uint64(d))})
 			due += d
+		}
+		if pl.horizon != nil && pl.horizon(due) {
+			return // a stall carried the loop out of the linear pacer's domain (its rate must stay well above zero)
 		}
 		t = due
 		hits++
